@@ -39,6 +39,14 @@ SMul(a, b) == SV(RMul(a.r, b.r), [j \in GI |-> a.e[j] + b.e[j]])
 SInv(a) == SV(RInv(a.r), [j \in GI |-> -a.e[j]])
 SDiv(a, b) == SMul(a, SInv(b))
 IsPure(a) == \A j \in GI : a.e[j] = 0
+\* special values (round 7): exact zero and +infinity (the marker r = <<1, 0>>); the group operations above are never
+\* applied to them - Apply (T) and FormulaVal (P) treat them first
+Zero == Num(RZero)
+Inf == SV(<<1, 0>>, ZE)
+IsZ(a) == a.r[1] = 0 /\ a.r[2] # 0
+IsI(a) == a.r[2] = 0
+Special(a) == a.r[1] = 0 \/ a.r[2] = 0
+Recip(a) == IF IsZ(a) THEN Inf ELSE Zero
 
 \* integer square root by bisection (32-bit safe): least k with k*k >= n
 RECURSIVE ISqrtB(_, _, _)
@@ -175,12 +183,25 @@ Prog(eq, xd, nd, k) ==
          ELSE NoBranch)
 
 Opnd(o, xv, rv) == CASE o.t = "X" -> xv [] o.t = "R" -> rv [] o.t = "K" -> o.v
+\* IEEE arithmetic of the ufuncs on 0 and +inf (all constants and grid values are positive): 0*inf, 0/0, inf/inf are nan
+\* (no step is generated), subtraction is left to the finite values
+ApplyOkS(op, a, b) ==
+  CASE op.f = "mul" -> ~(IsZ(a) /\ IsI(b)) /\ ~(IsI(a) /\ IsZ(b))
+    [] op.f = "div" -> ~(IsZ(a) /\ IsZ(b)) /\ ~(IsI(a) /\ IsI(b))
+    [] op.f = "pow" -> op.n > 0
+    [] OTHER -> FALSE
+ApplyS(op, a, b) ==
+  CASE op.f = "mul" -> IF IsZ(a) \/ IsZ(b) THEN Zero ELSE Inf
+    [] op.f = "div" -> IF IsZ(a) \/ IsI(b) THEN Zero ELSE Inf
+    [] OTHER -> a
 ApplyOk(op, a, b) ==
+  IF Special(a) \/ Special(b) THEN ApplyOkS(op, a, b) ELSE
   CASE op.f \in {"mul", "div"} -> MulSafe(a.r, b.r) /\ (op.f = "div" => b.r[1] # 0)
     [] op.f = "sub" -> a.e = b.e /\ Small(a.r) /\ Small(b.r)
     [] op.f = "pow" -> SPowOk(a, op.n)
     [] OTHER -> FALSE
 Apply(op, a, b) ==
+  IF Special(a) \/ Special(b) THEN ApplyS(op, a, b) ELSE
   CASE op.f = "mul" -> SMul(a, b)
     [] op.f = "div" -> SDiv(a, b)
     [] op.f = "sub" -> SV(RSub(a.r, b.r), a.e)
@@ -238,11 +259,15 @@ LorentzG(v) == LET be == SDiv(v, cC).r IN Num(RInv(RSq(RSub(ROne, RMul(be, be)))
 LorentzVOk(g) == /\ IsPure(g) /\ Small(g.r) /\ RLt(ROne, g.r)
                  /\ RIsSq(RSub(ROne, RInv(RMul(g.r, g.r))))
 LorentzV(g) == SMul(Num(RSq(RSub(ROne, RInv(RMul(g.r, g.r))))), cC)
+\* a monomial K x^p (K > 0) at x = 0 / +inf: the same special value when p > 0, the other one when p < 0 (the formula's
+\* limit: a photon of zero wavelength has infinite frequency and energy, a massless particle an infinite Compton length)
 FormulaOk(eq, a, b, k, v) ==
-  IF eq = "lorentz" THEN (IF a = "velocity" THEN LorentzGOk(v) ELSE LorentzVOk(v))
+  IF eq = "lorentz" THEN ~Special(v) /\ (IF a = "velocity" THEN LorentzGOk(v) ELSE LorentzVOk(v))
+  ELSE IF Special(v) THEN TRUE
   ELSE MApplyOk(FormulaMono(eq, a, b, k), v)
 FormulaVal(eq, a, b, k, v) ==
   IF eq = "lorentz" THEN (IF a = "velocity" THEN LorentzG(v) ELSE LorentzV(v))
+  ELSE IF Special(v) THEN (IF MExp(FormulaMono(eq, a, b, k)) > 0 THEN v ELSE Recip(v))
   ELSE MApply(FormulaMono(eq, a, b, k), v)
 
 Covered(eq, a, b) == a # b /\ a \in EqDims(eq) /\ b \in EqDims(eq)
@@ -355,9 +380,15 @@ GammaPairs == <<
   <<Num(<<17, 15>>), Num(<<5, 3>>)>>,
   <<Num(<<25, 7>>), Num(<<29, 21>>)>>
 >>
-ValPairs(d) == CASE d = "velocity" -> GenericPairs \o BetaPairs
+\* the value class "exact zero" (round 7): a quantity holds 0, an array 0 next to an ordinary number; +inf enters objects
+\* as the result of a step (0 -> inf -> 0 there and back).  Always the LAST pair of a dimension.
+SpecialPairs == <<
+  <<Zero, SMul(Num(<<16, 1>>), T10(8))>>
+>>
+ValPairs(d) == CASE d = "velocity" -> GenericPairs \o BetaPairs \o SpecialPairs
                  [] d = "dimensionless" -> GammaPairs
-                 [] OTHER -> GenericPairs
+                 [] OTHER -> GenericPairs \o SpecialPairs
+IsSpecPair(d, pi) == d # "dimensionless" /\ pi = Len(ValPairs(d))
 IntOk(v) == RIsInt(v.r) /\ \A j \in GI : IF j = 8 THEN v.e[j] >= 0 ELSE v.e[j] = 0
 
 \* ---------------------------------------------------------------- objects, requests, outcomes
